@@ -61,7 +61,7 @@ class Regular(ProducerContract):
         return dict(stage=T.Int(0, 2))
 
     def p_modifies(self, ip, a):
-        return [('heap', a.self, '_poll_start', T.Opt(T.Real)), ('heap', a.self, '_next_ping', T.Opt(T.Real))]
+        return [('heap', a.self, '_poll_start', T.Opt(T.Real)), ('heap', a.self, '_next_ping', T.Real)]
 
     def step_effects(self, ip, a, gen, label):
         st = ip.st
